@@ -321,3 +321,17 @@ _extend("C05", "unconditional z0 transfer in the destination set-up; element-siz
 _extend("C02", "all-systems / per-system index agreement", "Also decides that the per-system column index never subscripts the all-systems unknown vector "
                "without the system offset (Jacobian and residual rows of UE14/E12).")
 _extend("C18", "all-systems / per-system index agreement", "Also decides the same for the residual accumulation of the p-value.")
+
+# ---- seed round 4 (DESIGN 9.15) ------------------------------------------------------------------------------------------
+_extend("C07", "writer/reader agreement of the embedded property trees (R86); per-entry reset of the loader's presence table (R87); precision-kind agreement of the emitters (R89)",
+        "Also decides that the YAML exporter and importer of the embedded property trees agree on null spellings, key form and node kinds, that the loader's "
+        "per-frequency presence table is cleared for every entry, and that complex values (error terms, reference impedance) are written with the field "
+        "vnacal_set_dprecision sets and frequencies with the field vnacal_set_fprecision sets.")
+_extend("C09", "per-entry reset of the loader's presence table (R87)",
+        "Also decides that the table of parts collected for one calibration-file data entry is cleared inside the loop over entries (a part missing from a later entry is not taken from an earlier one).")
+_extend("C11", "commit-order rule on every failure of an allocation (R19b, incl. functions whose object arrives in a by-value argument structure); replace-on-success rule (R88)",
+        "Also decides that no counter/index/flag of a pre-existing object is changed in front of an allocation whose failure ends the call without undo, and that a field "
+        "which a function replaces on success (the solved calibration of a vnacal_new_t) is not released on a path that can still end in a failure of the work itself.")
+_extend("C12", "dangling-element rule (R41 over elements of owned vectors)",
+        "Also decides that no element of a vector the object owns (a calibration slot) is released in front of an allocation whose failure returns with the slot still pointing at it.")
+_extend("C20", "replace-on-success rule (R88)", "Also decides that a failing solve cannot have released the result of an earlier successful one.")
